@@ -1,10 +1,12 @@
 import EaselModel.Containers.KeyhashLemmas
+import EaselModel.Containers.KeyhashBounds
 import EaselModel.Containers.HeapLemmas
 import EaselModel.Containers.HeapHistory
 import EaselModel.Containers.RedBlackLemmas
 import EaselModel.Containers.StackLemmas
 import EaselModel.Containers.StackHistory
 import EaselModel.Containers.QuicksortLemmas
+import EaselModel.Containers.AllocBounds
 /-! # C19 — key tables, heaps, trees, stacks and index sorts behave as their abstract types
 
 Statements + glue only; the lemmas live in `EaselModel/Containers/*Lemmas.lean`. Every theorem quantifies over all
@@ -87,6 +89,20 @@ theorem keyhash_ops_partial (H : Key → Nat → Nat) (hH : HashOK H) (kh : KH) 
 theorem keyhash_upsize (H : Key → Nat → Nat) (hH : HashOK H) (kh : KH) (keys : List Key) (hi : Inv H kh keys) :
     ∃ kh', upsize H kh = some kh' ∧ Inv H kh' keys := upsize_spec hi hH
 
+/-- the model computes in `Nat`; the C fields are `int` / `uint32_t`. For every history during which the table never
+    holds more than `2^30-1` keys nor more than `2^30-1` arena bytes (Σ (length+1)) — a condition on the ABSTRACT content —
+    every reachable state has `salloc, kalloc, hashsize ≤ 2^31-1` and `nkeys, sn ≤ 2^30-1`: none of `kalloc *= 2`,
+    `salloc *= 2`, `sn += n+1`, `hashsize << 3`, `3*hashsize` can overflow, so the `Nat` model is the C arithmetic there. -/
+theorem keyhash_fields_in_range_partial (H : Key → Nat → Nat) (hH : HashOK H) (size kalloc salloc : Nat)
+    (h1 : 0 < size) (h2 : 0 < kalloc) (h3 : 0 < salloc) (hle : salloc ≤ M31 ∧ kalloc ≤ M31 ∧ size ≤ M31)
+    (ops : List Op) (hnul : ∀ op ∈ ops, op.NulFree) (hfit : FitsRun [] ops)
+    (kh' : KH) (h : finalKh H (create size kalloc salloc) ops = some kh') :
+    Within kh' ∧ kh'.nkeys ≤ B30 ∧ kh'.smem.size ≤ B30 :=
+  run_within hH ops _ [] (inv_create H size kalloc salloc h1 h2 h3) hnul hle hfit kh' h
+
+example : FitsRun [] [.store [1, 2], .lookup [3], .reuse] := by
+  simp [FitsRun, Fits, specStep, B30]
+
 theorem jenkins_in_range : HashOK jenkins := jenkins_ok
 
 /-- counter-example to the full statement at the witness of the known finding: `"a\0b"` stored by length (n=3) twice
@@ -166,6 +182,12 @@ theorem heap_sorts (isMax : Bool) (vs : List Int) :
 /-- … from any valid heap state (any interleaving of inserts and extractions before) -/
 theorem heap_drain (h : Heap.Heap) (hi : Heap.Inv h) :
     ∃ l, drain h.data.size h = some l ∧ l.Perm h.data.toList ∧ SortedBy h.isMax l := drain_spec h hi
+
+/-- the `int nalloc` of a heap is the initial 128 or at most twice the largest element count: no overflow of
+    `nalloc*2` as long as the heap holds fewer than 2^30 elements -/
+theorem heap_nalloc_in_range (h h' : Heap.Heap) (v : Int) (B : Nat) (hi : insert h v = some h')
+    (hs : h.data.size ≤ B) (hn : h.nalloc ≤ max 128 (2 * B)) : h'.nalloc ≤ max 128 (2 * B) :=
+  Heap.insert_nalloc_le h h' v B hi hs hn
 
 /-- `esl_heap_Validate` accepts exactly the heap-ordered arrays -/
 theorem heap_validate (h : Heap.Heap) :
@@ -274,6 +296,11 @@ theorem stack_history_shuffles {α : Type} (rollFuel : Nat) (s : Stack.Stack α)
 /-- the only way an operation does not return on a valid stack is the Roll loop of a shuffle running out of fuel -/
 theorem stack_no_fault {α : Type} (rollFuel : Nat) (s : Stack.Stack α) (hi : Stack.Inv s) (op : SOp α) :
     stepS rollFuel s op = none ↔ ∃ r, op = .shuffle r ∧ shuffle rollFuel r s = none := stepS_none_iff rollFuel s hi op
+
+/-- the `int nalloc` of a stack is the initial 128 or at most twice the largest element count -/
+theorem stack_nalloc_in_range {α : Type} (s s' : Stack.Stack α) (x : α) (B : Nat) (h : push s x = some s')
+    (hs : s.data.size ≤ B) (hn : s.nalloc ≤ max 128 (2 * B)) : s'.nalloc ≤ max 128 (2 * B) :=
+  Stack.push_nalloc_le s s' x B h hs hn
 
 /-- Convert2String gives the pushed characters in push order (C string: up to the first NUL, if one was pushed) -/
 theorem stack_convert2String (s : Stack.Stack UInt8) (h : (0 : UInt8) ∉ s.data.toList) :
